@@ -51,7 +51,8 @@ def _fn(fd):
               seq_out=fd.get("seq_out") if not fd.get("out_shape") else False,
               outer={v: k for k, v in inner.items()}, dict_out=fd["outputs"] if fd.get("dict_out") else None,
               result_like=bool(fd.get("result_like")) and not fd.get("out_shape") and not fd.get("none_mod"),
-              data_like=fd.get("data_like") if not fd.get("out_shape") and not fd.get("none_mod") else False)
+              data_like=("masked" if fd.get("masked_out") and fd.get("out_shape") else
+                         fd.get("data_like") if not fd.get("out_shape") and not fd.get("none_mod") else False))
 
 
 def _as_array(v):
@@ -119,6 +120,7 @@ def expected_outputs(w):
                 kw[name] = srcs[name][key]
             for o, v in _call(fn, fd, kw).items():
                 if int_axes:
+                    v = np.ma.getdata(v) if isinstance(v, np.ma.MaskedArray) else v  # a storage keeps the data of a masked value
                     v = np.asarray(v, dtype=object) if not isinstance(v, np.ndarray) else v
                     for iidx in np.ndindex(*int_shape):
                         full = tuple(at[a] if a in at else iidx[int_axes.index(a)] for a in out_axes)
